@@ -126,6 +126,13 @@ type Case struct {
 	PreChain    bool // HTTP level: submit to add-pre-chain
 	History     []HistStep // HTTP level: submissions made before the judged one (each is judged too)
 	AdvanceSec  int        // HTTP level: log clock advance before the final submission
+	// HTTP level: the trusted pool is configured as one roots file (0) or split over two files after
+	// RootSplit (mod n) certificates. Neighbour sets up a second log in the same process whose roots are
+	// the judged log's FIRST file plus a file with every certificate the judged log does NOT trust:
+	// 1 before, 2 after the judged log (0: none). The neighbour's trust must not leak.
+	RootSplit      int
+	Neighbour      int
+	NeighbourFirst bool // the shared file comes first in the neighbour's list
 	MaxDepth    int  // deepest intermediate level (0 = 3)
 }
 
